@@ -553,6 +553,13 @@ def _load_top(st, m, from_pxd):
         for d in st.declarators:
             t, name = ctype_of(st.base_type, d)
             m.globals_ctypes[str(name)] = t
+            dd = d
+            while type(dd).__name__ != 'CNameDeclaratorNode' and hasattr(dd, 'base'):
+                dd = dd.base
+            if getattr(dd, 'default', None) is not None:
+                if not hasattr(m, 'global_inits'):
+                    m.global_inits = {}
+                m.global_inits[str(name)] = expr(dd.default)
         return
     if cn == 'CDefExternNode':
         return
